@@ -240,6 +240,9 @@ fn run_parent(prop: &PropDef, tier: Tier, seed: i64, args: &[String]) -> i32 {
         }
     }
     let wall = start.elapsed().as_secs_f64();
+    if merged.samples.is_empty() && merged.machinery_errors.is_empty() {
+        merged.machinery_error("no sample case was recorded by any worker");
+    }
     if merged.states == 0 {
         // sequence/pair explorers: a "state" is a distinct observed outcome (final observable
         // state + return values), de-duplicated across all workers
